@@ -56,7 +56,8 @@ def handle (args : List String) (_impl : String) : String × String :=
     | "wneg" | "neg" | "negref" => let a := u bits as; let x := parseHex as
         (out (Ruint.Gen.uint_wrapping_neg (nlimbs bits + 1) bits (nlimbs bits) a), toHex ((m - x) % m))
     | "sum" | "sumref" =>
-        let xs := if as = "-" then [] else (as.splitOn ",").map parseHex
+        -- `N` = a `None` of a non-fused iterator: the items before the first one count
+        let xs := if as = "-" then [] else ((as.splitOn ",").takeWhile (· ≠ "N")).map parseHex
         (out (sum bits (xs.map (toLimbs (nlimbs bits)))), toHex (xs.foldl (· + ·) 0 % m))
     | _ => ("bad-op", "bad-op")
   | _ => ("bad-op", "bad-op")
